@@ -12,6 +12,8 @@ open Lean
 def isInternal (n : Name) : Bool :=
   n.isInternal || n.components.any fun c => match c with
     | .str _ s => s.startsWith "_" || s.startsWith "match_" || s.startsWith "proof_" || s.startsWith "eq_" || s == "brecOn" || s == "below"
+        || s == "injEq" || s == "inj" || s == "sizeOf_spec" || s == "noConfusion" || s == "noConfusionType" || s.endsWith "_sizeOf_spec"
+        || s == "ctorIdx" || s.startsWith "ofNat_" || s == "toCtorIdx" || s == "ctorElim" || s.startsWith "ctorElim"
     | _ => false
 
 unsafe def main (args : List String) : IO UInt32 := do
